@@ -401,8 +401,17 @@ def one_case(ctx, batch, a, b, n, mname, matcher, do_perturb):
     from breezy import patches
     case = dict(op="diff", a=[x.hex() for x in a], b=[x.hex() for x in b], n=n, matcher=mname)
     sm = matcher(None, a, b)
-    blocks = [tuple(x) for x in sm.get_matching_blocks()]
-    groups = [[tuple(o) for o in g] for g in sm.get_grouped_opcodes(n)]
+    try:
+        blocks = [tuple(x) for x in sm.get_matching_blocks()]
+        groups = [[tuple(o) for o in g] for g in sm.get_grouped_opcodes(n)]
+    except BaseException as e:
+        # the external compiled patiencediff package can panic ("Max recursion depth reached")
+        # on long repetitive texts; that is outside /repo and outside the property (the theorems
+        # are about any VALID matcher output): count and skip the case
+        if type(e).__name__ != "PanicException":
+            raise
+        ctx.count("matcher-panic:%s" % mname)
+        return
     d = do_diff(a, b, n, matcher)
     dl = split_nl(d)
     if d:
